@@ -79,7 +79,8 @@ Inductive hop :=
 | HResetBody
 | HSetBodyStream (size : Z) (s : stream)  (* SetBodyStream(r, size); SetBodyStreamWriter(sw) = size -1, SKReader *)
 | HSkipBody (b : bool)                 (* Response.SkipBody = b *)
-| HError (msg : bytes) (code : Z).     (* ctx.Error *)
+| HError (msg : bytes) (code : Z)      (* ctx.Error *)
+| HReset.                              (* ctx.Response.Reset() (ctx.NotFound = Reset; SetStatusCode(404); SetBodyString) *)
 
 Definition hstep (R : response) (o : hop) : response :=
   match o with
@@ -92,6 +93,7 @@ Definition hstep (R : response) (o : hop) : response :=
   | HSetBodyStream size s => SetBodyStream R s size
   | HSkipBody b => with_skip R b
   | HError msg code => CtxError msg code
+  | HReset => emptyResponse
   end.
 Definition hrun (R : response) (prog : list hop) : response := fold_left hstep prog R.
 
